@@ -246,5 +246,33 @@ func wideQueries(u *xuniverse) []*query {
 		add("PreparedQueryGet", id, func(st *state.Store, ws memdb.WatchSet) (uint64, any, error) { return x3(st.PreparedQueryGet(ws, id)) })
 	}
 	add("SystemMetadataList", "", func(st *state.Store, ws memdb.WatchSet) (uint64, any, error) { return x3(st.SystemMetadataList(ws)) })
+	for _, k := range u.sysKeys {
+		k := k
+		add("SystemMetadataGet", k, func(st *state.Store, ws memdb.WatchSet) (uint64, any, error) { return x3(st.SystemMetadataGet(ws, k)) })
+	}
+
+	// read paths that no family evaluated before round 4
+	add("SessionListAll", "", func(st *state.Store, ws memdb.WatchSet) (uint64, any, error) { return x3(st.SessionListAll(ws)) })
+	add("FederationStateList", "", func(st *state.Store, ws memdb.WatchSet) (uint64, any, error) { return x3(st.FederationStateList(ws)) })
+	for _, dc := range u.dcs {
+		dc := dc
+		add("FederationStateGet", dc, func(st *state.Store, ws memdb.WatchSet) (uint64, any, error) { return x3(st.FederationStateGet(ws, dc)) })
+	}
+	add("LegacyIntentions", "", func(st *state.Store, ws memdb.WatchSet) (uint64, any, error) { return x3(st.LegacyIntentions(ws, nil)) })
+	for _, src := range []string{"*", u.serviceNames[0]} {
+		for _, dst := range u.serviceNames[:3] {
+			src, dst := src, dst
+			add("IntentionGetExact", src+"->"+dst, func(st *state.Store, ws memdb.WatchSet) (uint64, any, error) {
+				idx, ce, ixn, err := st.IntentionGetExact(ws, &structs.IntentionQueryExact{SourceNS: "default", SourceName: src,
+					DestinationNS: "default", DestinationName: dst})
+				return idx, []any{ce, ixn}, err
+			})
+		}
+	}
+	add("ServiceUsage", "", func(st *state.Store, ws memdb.WatchSet) (uint64, any, error) { return x3(st.ServiceUsage(ws, true)) })
+	add("ExportedServicesForAllPeersByName", "", func(st *state.Store, ws memdb.WatchSet) (uint64, any, error) {
+		return x3(st.ExportedServicesForAllPeersByName(ws, "dc1", *em))
+	})
+	add("PeeringListDeleted", "", func(st *state.Store, ws memdb.WatchSet) (uint64, any, error) { return x3(st.PeeringListDeleted(ws)) })
 	return qs
 }
